@@ -87,12 +87,16 @@ impl TryFrom<BdlBlock> for WallCons {
             .zip(thickness.iter())
             .map(|(name, thickness)| {
                 if name.starts_with("Cámara de aire ") {
-                    match &name[name.len() - 5..] {
-                        " 1 cm" => 0.01,
-                        " 2 cm" => 0.02,
-                        " 5 cm" => 0.05,
-                        "10 cm" => 0.10,
-                        _ => *thickness,
+                    if name.ends_with(" 1 cm") {
+                        0.01
+                    } else if name.ends_with(" 2 cm") {
+                        0.02
+                    } else if name.ends_with(" 5 cm") {
+                        0.05
+                    } else if name.ends_with("10 cm") {
+                        0.10
+                    } else {
+                        *thickness
                     }
                 } else {
                     *thickness
